@@ -382,10 +382,10 @@ impl FootprintGuard {
                 !footprint.e_write.iter().any(|k| k.warp_id != warp_id),
                 "FootprintGuard::new: rule '{rule_name}' has cross-warp entries in e_write (expected warp {warp_id:?})"
             );
-            assert!(
-                !footprint.a_read.iter().any(|k| k.owner.warp_id() != warp_id),
-                "FootprintGuard::new: rule '{rule_name}' has cross-warp entries in a_read (expected warp {warp_id:?})"
-            );
+            // NOTE: cross-warp entries in `a_read` are legitimate: `Engine::apply_in_warp`
+            // adds the portal attachments of the descent chain (which live in ancestor
+            // instances) to the read set of every rewrite inside a descended instance.
+            // They are irrelevant to this instance-local guard and are filtered out below.
             assert!(
                 !footprint.a_write.iter().any(|k| k.owner.warp_id() != warp_id),
                 "FootprintGuard::new: rule '{rule_name}' has cross-warp entries in a_write (expected warp {warp_id:?})"
